@@ -58,6 +58,7 @@ type zzC01Bad struct {
 	Concrete string       `json:"concrete"`
 	Lists    any          `json:"lists"`
 	History  any          `json:"history"`
+	Ops      []string     `json:"ops"`
 }
 
 func TestZZVerifC01Replay(t *testing.T) {
@@ -147,21 +148,25 @@ func TestZZVerifC01Replay(t *testing.T) {
 					}
 
 					ans := zzC0102Harmless(req.Qtype)
-					o := z.query(req, ans, rng, via)
-					evals++
-					want := st.Tab[qi]
-					if o.Rep && st.Cfg.Cache {
-						want = st.TabR[qi]
+					wantOf := func(rep bool) (want []zzC0102Out) {
+						if rep && st.Cfg.Cache {
+							return st.TabR[qi]
+						}
+
+						return st.Tab[qi]
 					}
-					if zzC0102Admissible(o.Out, want) {
+					o, ok := z.settled(req, ans, rng, via, wantOf)
+					evals++
+					if ok {
 						continue
 					}
+					want := wantOf(o.Rep)
 
 					bad++
 					if bad <= 300 {
 						w.put(zzC01Bad{
 							Kind: "bad", I: l.I, S: si, Q: qi, Req: *req, Rep: o.Rep, Got: o.Out, Want: want,
-							Concrete: o.Concrete, Lists: z.texts, History: history,
+							Concrete: o.Concrete, Lists: z.texts, History: history, Ops: z.ops,
 						})
 					}
 
@@ -306,6 +311,7 @@ func zzC01RandCfg(rng *rand.Rand) (cfg zzC0102Cfg, targets [][]string) {
 
 	cfg.Rules = zzC01RandRules(rng, targets)
 	cfg.Cache = rng.Intn(3) == 0
+	cfg.Cust = 1 + rng.Intn(2)
 	cfg.Mode = []string{"default", "refused", "nxdomain", "null_ip", "custom_ip"}[rng.Intn(5)]
 	cfg.Prot = []string{"on", "on", "on", "off", "paused", "expired"}[rng.Intn(6)]
 	cfg.Filt = rng.Intn(5) != 0
@@ -368,9 +374,17 @@ func TestZZVerifC01Trace(t *testing.T) {
 					}
 					next.Rules = kept
 				}
-				next.Mode = []string{"default", "refused", "nxdomain", "null_ip", "custom_ip"}[rng.Intn(5)]
+				next.Mode = []string{"default", "refused", "nxdomain", "null_ip", "custom_ip", "custom_ip"}[rng.Intn(6)]
+				next.Cust = 1 + rng.Intn(2)
 				if err = z.reconfigure(&next, rng); err != nil {
 					t.Fatalf("reconfiguring: %v\n%s", err, strings.Join(z.ops, "\n"))
+				}
+				if err = z.quiesce(step); err != nil {
+					// Give this server up; direction A reports reconfigurations
+					// that do not take effect.
+					w.put(map[string]any{"ev": "stuck", "ci": ci, "err": err.Error()})
+
+					break
 				}
 				cur = next
 			}
